@@ -73,6 +73,26 @@ def _sub(a, b):
         return False
 
 
+def r13_1_literal(prog: Program, rep: Report):
+    """Literal members may themselves be text ("1", "null"): the raw input is tested for membership before the
+    JSON/literal loader gets a chance to turn it into another member."""
+    rows = C.handlers(prog, "unmarshal")
+    lit = [r for r in rows if r.pred_name == "isliteral" and r.routine]
+    if not lit:
+        return
+    c = lit[0].routine
+    f = C.call_of(prog, c)
+    ok = True
+    seen = False
+    for p, ret in P.returns(P.paths_of(prog, f)):
+        if T.contains(ret, lambda s: T.is_call_to(s, f"{C.SERDES}.load", f"{C.SERDES}.strload")):
+            seen = True
+            raw_first = any((not pol) and g[0] == "cmp" and g[1] == "in" and g[2] in (VAL, ("call", ("ref", f"{C.SERDES}.decode"), (VAL,), ())) for g, pol in p.guards())
+            if not raw_first:
+                ok = False
+    rep.check(ok, "R13.1", f"isliteral->{c.name}", f.loc, "a loaded value is returned only after the raw input failed the membership test" if seen else "no loaded value is ever returned", "the loaded value is tested (and returned) before the raw input: for Literal['1', 1] the valid member '1' comes back as 1", detail="raw-first")
+
+
 def r13_2(prog: Program, rep: Report):
     f = prog.function(f"{C.SERDES}.load")
     val = ("param", f.params[0])
@@ -142,6 +162,7 @@ def run(prog: Program, rep: Report, tier: str):
     rep.rule("R13.2", "serdes.load is the identity off text", floor=1)
     rep.rule("R13.3", "content peek guarded for classes with a definite strategy (shared with R18.3)", floor=1)
     r13_1(prog, rep)
+    r13_1_literal(prog, rep)
     r13_2(prog, rep)
     c18.r18_3(prog, rep, rule="R13.3")
     r13_4(prog, rep)
